@@ -1,12 +1,96 @@
 import PqModel.Dremel
+import PqModel.NullScan
+import PqModel.DremelLevels
+import PqModel.TypedPath
 
 /-! # C03 — All ingestion paths shred a Go value into the same Dremel column streams -/
 namespace PqModel.Props.C03
-open PqModel.Dremel
+open PqModel.Dremel PqModel.NullScan PqModel.TypedPath
 
 /-- Re-assembling the shredded columns of any conforming value of any well-formed schema yields the value. -/
 theorem assemble_shred_roundtrip (n : Node) (v : Val) (hwf : wfN n = true) (hc : confN n v = true) :
     asmN n 0 0 (shredN n 0 0 0 v) = v :=
   assemble_shred n v hwf hc
+
+/-- Levels are well-formed: for every schema and every value (conforming or not), column by column
+in column order (`Pairs` relates the i-th stream with the i-th `(maxDef, maxRep)` pair of
+`boundsN`), the stream of a row is non-empty, its first triple has repetition level 0, and every
+triple has `def ≤ maxDef column` and `rep ≤ maxRep column`. -/
+theorem shred_levels_wf (n : Node) (v : Val) :
+    Pairs (fun (c : List Triple) (b : Nat × Nat) =>
+        (∃ t ts, c = t :: ts ∧ t.rep = 0) ∧ ∀ t ∈ c, t.dfn ≤ b.1 ∧ t.rep ≤ b.2)
+      (shredN n 0 0 0 v) (boundsN n 0 0) :=
+  shredN_levels n 0 0 0 v (Nat.le_refl _)
+
+/-- `boundsN` on `{ optional a; repeated group { optional b; required c } }` -/
+example : boundsN (.group (.cons (.opt .leaf) (.cons (.rpt (.group (.cons (.opt .leaf) (.cons .leaf .nil)))) .nil))) 0 0
+    = [(1, 0), (2, 1), (1, 1)] := by simp [boundsN, boundsF]
+
+/-! ## the null bitmap scan of optional non-pointer fields (typed path)
+
+`acquireBitmap(n)` hands the scan `(n+63)/64` words when the bitmap comes from the pool and `n`
+words when it is freshly allocated (`bitmap.go:29-34`), all zero, and `nullIndex` only sets bits
+below `n`; the theorem needs neither the exact length nor the zero padding: `n ≤ 64 * words` is
+enough, whatever the bits at and beyond `n` are. -/
+
+/-- MIRROR `nullRuns` (the loop of `writeRowsFuncOfOptional` as repaired), for every bitmap and every
+row count it can index: the loop finishes within `n` iterations without an index out of range, and
+the runs it hands to `writeRows` are non-empty, contiguous, cover exactly `[0, n)`, every row of a
+run is written null iff its bit is clear, and consecutive runs differ in kind. -/
+theorem nullRuns_spec (ws : List (BitVec 64)) (n : Nat) (hn : n ≤ 64 * ws.length) :
+    ∃ runs, nullRuns ws n = .ok runs ∧ Chain ws 0 n runs ∧ Alternates runs :=
+  scan_spec ws n hn n 0 (Nat.zero_le _) (by omega)
+
+example : (3 : Nat) ≤ 64 * [0b010#64].length := by decide
+
+/-- The same, flattened: the kinds of the runs repeated over their lengths are the null pattern of
+the rows `0 … n-1`. -/
+theorem nullRuns_flatten (ws : List (BitVec 64)) (n : Nat) (hn : n ≤ 64 * ws.length) :
+    ∃ runs, nullRuns ws n = .ok runs ∧
+      runs.flatMap (fun r => List.replicate (r.j - r.i) r.isNull) =
+        (List.range n).map (fun p => !bitAt ws p) := by
+  rcases nullRuns_spec ws n hn with ⟨runs, h1, h2, _⟩
+  refine ⟨runs, h1, ?_⟩
+  rw [chain_flatten h2, List.range_eq_range', Nat.sub_zero]
+
+/-- The scan before the repair (all-ones test against `(1<<y)-1`): rows null, value, null — the
+third row is handed to `writeRows` as part of the non-null run. -/
+theorem nullRuns_before_fix_witness :
+    scanBeforeFix [0b010#64] 3 = .ok [⟨true, 0, 1⟩, ⟨false, 1, 3⟩] ∧
+      bitAt [0b010#64] 2 = false ∧
+      nullRuns [0b010#64] 3 = .ok [⟨true, 0, 1⟩, ⟨false, 1, 2⟩, ⟨true, 2, 3⟩] := by decide
+
+/-- MIRROR `nullIndex` (portable kernel on a zeroed pool bitmap): `(n+63)/64` words, bit `p` set
+exactly when row `p` exists and is not the zero value — so the precondition of `nullRuns_spec`
+holds and the padding is zero. -/
+theorem nullIndex_bits {α : Type} (nonzero : α → Bool) (vs : List α) :
+    (nullIndex nonzero vs).length = (vs.length + 63) / 64 ∧
+    vs.length ≤ 64 * (nullIndex nonzero vs).length ∧
+    ∀ p, bitAt (nullIndex nonzero vs) p = (vs[p]?.map nonzero).getD false :=
+  nullIndex_spec nonzero vs
+
+/-! ## the typed path against the reflection path -/
+
+/-- Path equivalence as a theorem about two Lean functions: for every Go type built from the
+wrappers of `TNode` (required leaf, `optional` non-pointer leaf with its bitmap scan, struct,
+pointer, slice, `list`, `optional`+`list`, nested in any way) and every batch of rows — conforming
+or not —, the MIRROR of the typed write path (`typedWrite`: the `writeRowsFunc` closures composed
+over the level bookkeeping of the leaf column buffers, one call for the whole batch) appends to
+every leaf column exactly the triples `shredN` (the reflection path, theorem
+`assemble_shred_roundtrip`) emits for the rows, row after row. In particular the null positions of
+both paths are the same. -/
+theorem typed_eq_reflect (n : TNode) (batch : List Val) :
+    typedWrite n batch = joinSegs (leavesN (erase n)) (batch.map (shredN (erase n) 0 0 0)) :=
+  typedWrite_eq_shred n batch
+
+/-- a conforming row of `struct { A int32 optional; B []struct{ P *int32; Q int32 optional }; C [][]int32 optional,list; D int32 }` -/
+example :
+    let T : TNode := .struct (.cons .optLeaf (.cons (.slice (.struct (.cons (.ptr .leaf) (.cons .optLeaf .nil))))
+      (.cons (.optList (.list .leaf)) (.cons .leaf .nil))))
+    let row : Val := .struct [.some (.prim 1),
+      .list [.struct [.some (.prim 2), .none], .struct [.none, .some (.prim 3)]],
+      .some (.struct [.list [.struct [.struct [.list [.struct [.prim 4], .struct [.prim 5]]]]]]), .prim 9]
+    wfN (erase T) = true ∧ confN (erase T) row = true := by
+  simp [erase, eraseF, listNode, wfN, wfF, leavesN, leavesF, confN, confF]
 
 end PqModel.Props.C03
